@@ -4,8 +4,10 @@ From Coq Require Import List ZArith NArith Bool Lia.
 Import ListNotations.
 Local Open Scope Z_scope.
 
-Inductive pkind := PPub (topic : N) | PLog.
-Record proc := { kind : pkind; period : Z }.          (* period > 0 *)
+(* PSet v: a process that calls core.set_param("logger/dt", v) every `period` ticks (a parameter update while the
+   simulation runs); the logger follows the params topic, so its NEXT wait uses v *)
+Inductive pkind := PPub (topic : N) | PLog | PSet (v : Z).
+Record proc := { kind : pkind; period : Z }.          (* period > 0; for PLog: the period set before the run *)
 
 Record ev := { e_t : Z; e_id : N; e_pid : nat }.
 Record sstate := {
@@ -13,7 +15,9 @@ Record sstate := {
   next_id : N;
   counts : list (nat * N);             (* messages published so far, per process *)
   latest : list (N * N);               (* topic -> sequence number of the latest message the logger saw *)
-  rows : list (Z * list (N * N))       (* logger rows, oldest first: (time stamp, snapshot of latest) *)
+  rows : list (Z * list (N * N));      (* logger rows, oldest first: (time stamp, snapshot of latest) *)
+  log_dt : option Z;                   (* logger/dt as last set while running (None: still the initial period) *)
+  waits : list Z                       (* ghost: the wait the logger scheduled after each row (not observable) *)
 }.
 
 Fixpoint insert (e : ev) (q : list ev) : list ev :=
@@ -35,17 +39,25 @@ Fixpoint set_count (p : nat) (c : N) (l : list (nat * N)) : list (nat * N) :=
 (* one resumption of process pid at time t *)
 Definition fire (ps : list proc) (s : sstate) (t : Z) (pid : nat) (q : list ev) : sstate :=
   match nth_error ps pid with
-  | None => {| queue := q; next_id := next_id s; counts := counts s; latest := latest s; rows := rows s |}
+  | None => {| queue := q; next_id := next_id s; counts := counts s; latest := latest s; rows := rows s;
+               log_dt := log_dt s; waits := waits s |}
   | Some p =>
       let e := {| e_t := t + period p; e_id := next_id s; e_pid := pid |} in
       match kind p with
       | PPub topic =>
           let c := (get_count pid (counts s) + 1)%N in
           {| queue := insert e q; next_id := (next_id s + 1)%N; counts := set_count pid c (counts s);
-             latest := set_latest topic (N.of_nat pid * 100000 + c)%N (latest s); rows := rows s |}
+             latest := set_latest topic (N.of_nat pid * 100000 + c)%N (latest s); rows := rows s;
+             log_dt := log_dt s; waits := waits s |}
       | PLog =>
-          {| queue := insert e q; next_id := (next_id s + 1)%N; counts := counts s; latest := latest s;
-             rows := rows s ++ [(t, latest s)] |}
+          (* Logger.run: stamp, append, then wait self.dt.get() -- the value in force NOW *)
+          let d := match log_dt s with Some d => d | None => period p end in
+          let e' := {| e_t := t + d; e_id := next_id s; e_pid := pid |} in
+          {| queue := insert e' q; next_id := (next_id s + 1)%N; counts := counts s; latest := latest s;
+             rows := rows s ++ [(t, latest s)]; log_dt := log_dt s; waits := waits s ++ [d] |}
+      | PSet v =>
+          {| queue := insert e q; next_id := (next_id s + 1)%N; counts := counts s; latest := latest s; rows := rows s;
+             log_dt := Some v; waits := waits s |}
       end
   end.
 
@@ -55,7 +67,7 @@ Fixpoint start (ps : list proc) (all : list proc) (pid : nat) (s : sstate) : sst
   | [] => s
   | _ :: r => start r all (S pid) (fire all s 0 pid (queue s))
   end.
-Definition s0 : sstate := {| queue := []; next_id := 0%N; counts := []; latest := []; rows := [] |}.
+Definition s0 : sstate := {| queue := []; next_id := 0%N; counts := []; latest := []; rows := []; log_dt := None; waits := [] |}.
 
 (* run until tf (exclusive: simpy's `until` event has urgent priority), fuel bounds the number of events *)
 Fixpoint srun (ps : list proc) (tf : Z) (fuel : nat) (s : sstate) : sstate :=
@@ -67,5 +79,7 @@ Fixpoint srun (ps : list proc) (tf : Z) (fuel : nat) (s : sstate) : sstate :=
       | e :: q => if Z.ltb (e_t e) tf then srun ps tf f (fire ps s (e_t e) (e_pid e) q) else s
       end
   end.
-Definition simulate (ps : list proc) (tf : Z) (fuel : nat) : list (Z * list (N * N)) :=
-  rows (srun ps tf fuel (start ps ps 0%nat s0)).
+Definition final (ps : list proc) (tf : Z) (fuel : nat) : sstate := srun ps tf fuel (start ps ps 0%nat s0).
+Definition simulate (ps : list proc) (tf : Z) (fuel : nat) : list (Z * list (N * N)) := rows (final ps tf fuel).
+(* well-formed process table: positive periods and positive logger/dt values *)
+Definition proc_ok (p : proc) : Prop := 0 < period p /\ match kind p with PSet v => 0 < v | _ => True end.
